@@ -436,6 +436,10 @@ def mk_types():
     for n in (1, 2, 3):
         add(Ty('DualSVec64_%d' % n, 'DualVec', F64, (n,)))
         add(Ty('Dual2SVec64_%d' % n, 'Dual2Vec', F64, (n,)))
+    for n in (4, 5, 6):        # larger static sizes: used by C04 (static vs dynamic storage)
+        add(Ty('DualSVec64_%d' % n, 'DualVec', F64, (n,)))
+        add(Ty('Dual2SVec64_%d' % n, 'Dual2Vec', F64, (n,)))
+    add(Ty('HyperDualSVec64_3_3', 'HyperDualVec', F64, (3, 3)))
     for n in (0, 1, 2, 3, 4, 5, 6):
         add(Ty('DualDVec64:%d' % n, 'DualVec', F64, (n,)))
         add(Ty('Dual2DVec64:%d' % n, 'Dual2Vec', F64, (n,)))
@@ -787,6 +791,10 @@ OPS.update({
     'sum0': ('sum', 'val', 0, '', '({S}_Sum_sum [])'), 'product0': ('product', 'val', 0, '', '({S}_Product_product [])'),
     'from_i32': ('from_i32', 'optval', 0, 'n', '({S}_FromPrimitive_from_i32 n)'),
 })
+# programs (Hand/Prog.v) over 1..3 inputs; aux = the program as a list of integers
+OPS['prog1'] = ('prog', 'val', 1, 'L', '(eval [a] pg)')
+OPS['prog2'] = ('prog', 'val', 2, 'L', '(eval [a; b] pg)')
+OPS['prog3'] = ('prog', 'val', 3, 'L', '(eval [a; b; c] pg)')
 # explicit operator forms (each is its own translated definition)
 for _o in ('add', 'sub', 'mul', 'div'):
     for _f in ('rr', 'rv', 'vr', 'vv'):
@@ -829,6 +837,8 @@ class Case:
         for k, a in zip(auxk, self.aux):
             if k == 'n':
                 aux.append(str(a))
+            elif k == 'L':
+                aux.extend(str(x) for x in a)
             else:
                 lf = self.ty.leaf()
                 aux.append('%016x' % a if lf.width == 64 else '%08x' % a)
@@ -891,6 +901,8 @@ def runner_def(name, ty, op, extra_tpl=None):
     for k in auxk:
         if k == 'n':
             lets += "let '(n, l) := rd (A:=Z) l in "
+        elif k == 'L':
+            lets += "let '(pg, l) := rd_prog l in "
         else:
             lets += "let '(q, l) := rd (A:=xf) l in "
     for v in 'abc'[:n]:
@@ -900,7 +912,9 @@ def runner_def(name, ty, op, extra_tpl=None):
 
 def case_Z(c):
     hop, kind, n, auxk, tpl = OPS[c.op]
-    zs = list(c.aux)
+    zs = []
+    for k, a in zip(auxk, c.aux):
+        zs += ([len(a)] + list(a)) if k == 'L' else [a]
     for v in c.args:
         zs += val_to_Z(v, c.ty)
     return zs
